@@ -701,6 +701,19 @@ class ConfigInformation:
 
         return TagFinder()(self.pyobject)
 
+    @staticmethod
+    def _validate_value(value):
+        """Validate the configurations held by a value, including those
+        within lists and dictionaries"""
+        if isinstance(value, Config):
+            value.__xpm__.validate()
+        elif isinstance(value, list):
+            for el in value:
+                ConfigInformation._validate_value(el)
+        elif isinstance(value, dict):
+            for el in value.values():
+                ConfigInformation._validate_value(el)
+
     def validate(self):
         """Validate a value"""
         if not self._validated:
@@ -710,8 +723,7 @@ class ConfigInformation:
             for k, argument in self.xpmtype.arguments.items():
                 value = self.values.get(k)
                 if value is not None:
-                    if isinstance(value, Config):
-                        value.__xpm__.validate()
+                    ConfigInformation._validate_value(value)
                 elif argument.required:
                     if not argument.generator:
                         raise ValueError(
